@@ -14,7 +14,8 @@ R0 == <<0,1>>
 R1 == <<1,1>>
 RI(n) == <<n,1>>
 RQ(n,d) == Norm(n,d)
-RAdd(a,b) == Norm(a[1]*b[2] + b[1]*a[2], a[2]*b[2])
+\* least common denominator, so that sums of many terms with equal denominators never grow
+RAdd(a,b) == LET g == Gcd(a[2], b[2]) IN Norm(a[1]*(b[2] \div g) + b[1]*(a[2] \div g), (a[2] \div g)*b[2])
 RNeg(a)   == <<-a[1], a[2]>>
 RSub(a,b) == RAdd(a, RNeg(b))
 \* cross-cancel before multiplying to keep intermediates small
